@@ -208,7 +208,7 @@ def run(tier):
     # (4) attribute access orders on one result
     res2, results, hists = R.hist_cases(f"{PID}_attr", 2 if tier == "quick" else 3)
     V.model(res2, "Result.tla scope=hist (access orders, copies)")
-    res3, results3, hists3 = R.hist_cases(f"{PID}_attrsim", 10, simulate="num=30" if tier == "quick" else "num=400", depth=11, seed=sd + 3)
+    res3, results3, hists3 = R.hist_cases(f"{PID}_attrsim", 10, simulate="num=30" if tier == "quick" else "num=120", depth=11, seed=sd + 3)
     V.model(res3, "Result.tla scope=hist, simulated length-10 access orders")
     allh = [(results[rid], h) for rid, h in hists] + [(results3[rid], h) for rid, h in hists3 if rid in results3]
     out = common.pmap(_hist_worker, allh, chunksize=32)
